@@ -1,27 +1,51 @@
 #!/usr/bin/env python3
-"""Function translator: pure integer functions of the Rust sources  ->  lean/NomtModel/Generated/Functions.lean
+"""Function translator: pure integer functions and methods of the Rust sources  ->  lean/NomtModel/Generated/Functions.lean
 
 A (small) Rust-subset -> Lean translator.  It reads the CURRENT working tree of the Rust project
 (default /repo, override env NOMT_REPO or argv[1]), finds every function listed in TARGETS, parses its
 body with a recursive-descent parser for the subset below and emits one Lean definition per function
-into namespace `Nomt.GenFn`.  `lean/NomtModel/Store/GenFnCheck.lean` then proves, for ALL arguments in
+into namespace `Nomt.GenFn`.  `lean/NomtModel/Store/GenFnCheck*.lean` then prove, for ALL arguments in
 the function's domain, that the generated definition equals the hand-written mirror the property theorems
 are about — so a change of the Rust function that alters its meaning breaks a kernel-checked obligation
 on the next run, and a harmless rewrite (reordered arithmetic, a renamed local) re-proves by `omega`.
 
-Subset: `fn name(a: T, …) -> T { … }` over usize / u8 / u16 / u32 / u64 / bool;
-  statements  `let [mut] x [: T] = e;`  `x = e;`  `x op= e;`  `if c { … } [else if …] [else { … }]`
-              `return e;`  `assert!(c …);` `debug_assert!(c …);`  trailing expression
+TARGETS: (lean name, rust fn name, file[, options]).  Options: `impl` (the method `fn name(&self …)` of `impl X` / `impl Trait for X`),
+  `types_from` (further files whose struct / enum definitions may be read), `const_from` (further files for constants),
+  `hints` ({local: type} for a `let` whose type Rust infers from a LATER use; a wrong hint is a type error of the translation),
+  `calls` ({"alias::f": lean name} for a call through a module alias) with `uses` (regexes the file's imports must still match),
+  `opaque` (type aliases carried around but never computed with, a `Nat`).
+
+Subset and the SEMANTICS each construct is given:
+  values      every integer is a `Nat` below 2^width of its Rust type (usize = u64); `bool` is `Bool`; `Option<T>` is `Option`; tuples are
+              products; `Vec<T>` / `&[T]` are `List`; a single-field tuple struct over an integer (`PageNumber(u32)`, `Self(x)`) is that
+              integer; an enum with integer payloads becomes a generated `inductive` with the same variant names.
+  result      `Option R`: `none` = the Rust function PANICS (debug build: overflow of + - *, division / remainder by zero, shift by >= width,
+              failed `assert!` / `assert_eq!` / `assert_ne!`, `panic!` / `unreachable!`, index out of bounds, `unwrap` of `None`).
+              A function with a `loop` / `while` takes `fuel` first and returns `Option (Option R)`: outer `none` = the fuel ran out,
+              `some none` = panic (the check file proves equality with the mirror for EVERY fuel, and that enough fuel is never used up).
+  self        the leaf fields of `self` (and of struct-typed parameters) the body touches — directly or through a translated method it
+              calls — are parameters, in struct declaration order, before the explicit parameters (`self.depth` -> `depth`,
+              `meta_map.bitvec` -> `meta_map_bitvec`, a tuple struct's `self.0` -> `self0`, a `[u64; 2]` field -> `f0 f1`); field types are
+              read from the struct definitions.  A `&mut self` method returns (value, new values of the fields it assigns…).
+  statements  `let [mut] x [: T] = e;`  `let Some(x) = e else { diverges };`  `x = e;`  `x op= e;`  `self.f = e;`  `self.f op= e;`
+              `self.arr[i] op= e` (bounds-checked, every element rebound by `if i = k`), `self.vec[i] = e` (`List.set`, bounds-checked),
+              `if` / `else if` / `else`, `match` on integers (literals, `_`, binding, `if` guards: an if-chain over the bound scrutinee) and on
+              `Option` (`None` / `Some(pattern)`, tuple patterns), `return [e];`, the assert / panic macros, calls of unit methods,
+              `loop { }` / `while c { }` (auxiliary definition, recursion on explicit fuel, all variables in scope are its parameters,
+              `continue` = recursive call, `break` = the statements after the loop), `for i in a..b` / `(a..b).rev()` (auxiliary definition,
+              structural recursion on the number of remaining iterations — no fuel), trailing expression.  Nested loops are NOT translated.
   expressions integer literals (dec / hex / bin / octal, `_`, type suffix), `true` / `false`, locals, parameters,
               UPPER_CASE constants (resolved by tools/gen_constants.py's evaluator from their `const` items),
-              `u64::MAX`-style constants, + - * / % << >> & | ^ ! (bitwise / logical), comparisons, && ||,
-              `e as T`, parentheses, `if` expressions, calls of other TARGET functions, `core::cmp::min/max`,
-              methods saturating_sub, saturating_add, wrapping_add/sub/mul, min, max, div_ceil, next_multiple_of, pow,
-              count_ones, is_power_of_two, and the idiom `E.checked_shl(S).map(|m| BODY).unwrap_or(D)`.
-Semantics: every value is a `Nat` below 2^width of its Rust type; a definition returns `Option`, `none` = the
-  Rust function panics (overflow of + - * in a checked build, division by zero, over-long shift, failed assert).
-  Unsupported syntax is an ERROR naming the function and the token (exit code 1): a function that leaves the
-  subset must be noticed, never silently skipped.
+              `u64::MAX`-style constants, + - * / % << >> & | ^ ! (bitwise / logical), comparisons, && || (short-circuit),
+              `e as T` (widening: unchanged; narrowing: `% 2^width`; bool: 0 / 1), parentheses, `&` / `*` (the value itself), `if` and
+              `match` expressions, field access, tuple `.0`, indexing, `Some(e)` / `None`, tuples, `Enum::Variant(e)`,
+              calls of other TARGET functions / associated functions / methods of objects, `core::cmp::min/max`,
+              methods saturating_sub, saturating_add, wrapping_add/sub/mul (`% 2^width`), checked_add/sub/mul (an `Option`), abs_diff,
+              min, max, div_ceil, next_multiple_of, pow, count_ones (`popcount`), trailing_zeros (`ctz`), leading_zeros (`clz`),
+              is_power_of_two, `unwrap` / `expect` (`None` = panic), `unwrap_or`, `is_none` / `is_some`, `len` / `is_empty` of a slice,
+              `clone` / `copied`, and the idiom `E.checked_shl(S).map(|m| BODY).unwrap_or(D)`.
+Unsupported syntax is an ERROR naming the function and the token (exit code 1): a function that leaves the subset must be noticed,
+never silently skipped or guessed (struct literals, closures, iterators, `?`, range indexing, nested loops, untyped shifts, strings …).
 The output is deterministic; the file is only rewritten when its content changes.
 """
 import os
